@@ -141,9 +141,21 @@ def model_probe(stack):
         return "ValueError"
     active, forced, explicit_ctx = _active(ctx, prefer, require)
     nj = ctx["n_jobs"]
-    if forced and explicit_ctx:
-        nj = 1
+    if forced and (explicit_ctx or nj is None):
+        nj = 1          # the fall-back reports one job unless a context without backend chose n_jobs
     return [CLSNAME[active], nj]
+
+
+def probe_ok(got, stack):
+    """get_active_backend() against the model.  When the thread fall-back applies and no context chose n_jobs, the property
+    does not say whether "unset" is reported as None or as 1 (the tree has done both): both are accepted."""
+    exp = model_probe(stack)
+    if got == exp:
+        return True
+    ctx = _ctx(stack)
+    if isinstance(exp, list) and ctx["n_jobs"] is None and isinstance(got, list) and got[0] == exp[0] and got[1] in (None, 1):
+        return _active(ctx, ctx["prefer"], ctx["require"])[1]
+    return False
 
 
 # ---- execution --------------------------------------------------------------
@@ -191,7 +203,7 @@ def run_case(case):
             elif st[0] == "probe":
                 stats["probes"] += 1
                 exp = model_probe(stack); got = observe_probe()
-                if got != exp:
+                if not probe_ok(got, stack):
                     mism.append((tid, "probe", [dict(f) for f in stack], None, got, exp))
             elif st[0] == "badctx":
                 fr = dict(st[1]["frame"], backend="no_such_backend")
@@ -203,7 +215,7 @@ def run_case(case):
                 except Exception:  # noqa
                     stats["failed_constructions"] = stats.get("failed_constructions", 0) + 1
                 for kind_, exp, got in (("probe", model_probe(stack), observe_probe()), ("par", model_par(stack, {}), observe_par({}))):
-                    if got != exp:
+                    if (not probe_ok(got, stack)) if kind_ == "probe" else got != exp:
                         mism.append((tid, "after_failed_construction", [dict(f) for f in stack], fr, got, exp))
                         break
             elif st[0] == "spawn":
@@ -243,7 +255,7 @@ def run_case(case):
                     open_blocks[0] -= 1
                 # after the block: the previous frame is back
                 exp = model_probe(stack); got = observe_probe()
-                if got != exp:
+                if not probe_ok(got, stack):
                     mism.append((tid, "after_exit", [dict(f) for f in stack], spec["frame"], got, exp))
 
     def thread_main(tid, prog):
